@@ -39,6 +39,7 @@ def check(run):
         run.guard("C04.2.precedence", cfg, lambda: rule_precedence(run, F, cfg))
         run.guard("C04.2.precedence", cfg + "/table", lambda: rule_verdict_table(run, F, cfg))
         run.guard("C04.3.badfilter-id", cfg, lambda: rule_badfilter_id(run, F, cfg))
+        run.guard("C04.3.badfilter-id", cfg + "/complete", lambda: rule_badfilter_set_complete(run, F, cfg))
         run.guard("C04.4.badfilter-never-matches", cfg, lambda: rule_never_matches(run, F, cfg))
         b = run.borrow("C07", why="an $important rule must be found (with the enabled tags) to take precedence")
         run.guard("C04.via.C07.1.tag-gate", cfg, lambda: _C07.rule_tag_gate(b, F, cfg))
@@ -271,6 +272,43 @@ def _root_local(f, op):
             continue
         return l
     return None
+
+
+def rule_badfilter_set_complete(run, F, cfg):
+    """Blocker::new: the set of ids disabled by `$badfilter` rules is complete before it is consulted for the first rule --
+    a `$badfilter` line cancels its twin wherever the two stand in the list (main list first, fixes list later). Decided by
+    reachability: from no block that tests `contains` on the set can a block be reached that still adds to it (an insert
+    into the set, the collect that builds it, a push into the vector it is collected from)."""
+    f = F.fn("blocker::Blocker::new")
+    run.touched(f)
+    uses = []
+    setname = None
+    for b, t in f.calls(r"^std::collections::HashSet::contains$"):
+        if "get_id" in f.expr_operand(t["args"][1]) or "filter_id" in f.vexpr_operand(t["args"][1]):
+            uses.append(b)
+            setname = f.vexpr_operand(t["args"][0])
+    fills = []
+    srcs = set()
+    if setname:
+        for b, t in f.calls(r"^std::iter::Iterator::collect$|^std::collections::HashSet::(insert|extend)$|Extend<.*>>::extend$"):
+            c = strip_generics(t["callee"])
+            if c.endswith("::collect") and "$" + (f.varnames.get(t["dest"]["l"]) or "?") == setname:
+                fills.append((b, "collect"))
+                srcs |= set(re.findall(r"\$\w+", f.vexpr_call(t)))
+            elif not c.endswith("::collect") and f.vexpr_operand(t["args"][0]) == setname:
+                fills.append((b, c.split("::")[-1]))
+        for b, t in f.calls(r"^std::vec::Vec::push$"):
+            if f.vexpr_operand(t["args"][0]) in srcs:
+                fills.append((b, "push:" + f.vexpr_operand(t["args"][0])))
+    late = []
+    for u in uses:
+        reach = set(f.reachable_from(u))
+        late += [(kind, f.loc(b)) for b, kind in fills if b in reach]
+    run.ob("C04.3.badfilter-id", "badfilter-set-complete-before-use", bool(uses) and bool(fills) and not late,
+           f"the {len(uses)} test(s) of `{setname}` in Blocker::new come after everything that fills it ({sorted(set(k for b, k in fills))}): "
+           f"no filling step is reachable from a test; reachable: {late[:3]}", site=late[0][1] if late else f.loc(0), config=cfg,
+           detail="with one merged loop a `$badfilter` cancels only the rules that come after it: the verdict then depends "
+                  "on the order of the lines / of the lists added to the FilterSet")
 
 
 def rule_badfilter_id(run, F, cfg):
